@@ -1830,8 +1830,15 @@ class _AnsiSettingPoint:
             'fg_': ColorComponentType.FOREGROUND
         }
 
+        # The optional bracket around the value(s) must be closed by its counterpart
+        inner = s[s.find('(')+1:-1].strip() if s.endswith(')') else ''
+        opening = inner[:1] if inner[:1] in ('[', '(') else ''
+        closing = inner[-1:] if inner[-1:] in (']', ')') else ''
+        if {'': '', '[': ']', '(': ')'}[opening] != closing:
+            return None
+
         # rgb(), fg_rgb(), bg_rgb(), or ul_rgb() with 3 distinct values as decimal or hex
-        match = re.search(r'^((?:fg_)?|(?:bg_)|(?:ul_)|(?:dul_))rgb\([\[\()]?\s*(0x)?([0-9a-fA-F]+)\s*,\s*(0x)?([0-9a-fA-F]+)\s*,\s*(0x)?([0-9a-fA-F]+)\s*[\)\]]?\)$', s)
+        match = re.search(r'^((?:fg_)?|(?:bg_)|(?:ul_)|(?:dul_))rgb\([\[\()]?\s*(0x)?([0-9a-fA-F]+)\s*,\s*(0x)?([0-9a-fA-F]+)\s*,\s*(0x)?([0-9a-fA-F]+)\s*[\)\]]?\)\Z', s)
         if match:
             try:
                 r = int(match.group(3), 16 if match.group(2) else 10)
@@ -1843,7 +1850,7 @@ class _AnsiSettingPoint:
             return AnsiFormat.rgb(r, g, b, component_dict.get(match.group(1), ColorComponentType.FOREGROUND))
 
         # rgb(), fg_rgb(), bg_rgb(), or ul_rgb() with 1 value as decimal or hex
-        match = re.search(r'^((?:fg_)?|(?:bg_)|(?:ul_)|(?:dul_))rgb\([\[\()]?\s*(0x)?([0-9a-fA-F]+)\s*[\)\]]?\)$', s)
+        match = re.search(r'^((?:fg_)?|(?:bg_)|(?:ul_)|(?:dul_))rgb\([\[\()]?\s*(0x)?([0-9a-fA-F]+)\s*[\)\]]?\)\Z', s)
         if match:
             try:
                 rgb = int(match.group(3), 16 if match.group(2) else 10)
@@ -1853,7 +1860,7 @@ class _AnsiSettingPoint:
             return AnsiFormat.rgb(rgb, component=component_dict.get(match.group(1), ColorComponentType.FOREGROUND))
 
         # color256(), fg_color256(), bg_color256(), or ul_color256() with 1 value as decimal or hex
-        match = re.search(r'^((?:fg_)?|(?:bg_)|(?:ul_)|(?:dul_))colou?r256\([\[\()]?\s*(0x)?([0-9a-fA-F]+)\s*[\)\]]?\)$', s)
+        match = re.search(r'^((?:fg_)?|(?:bg_)|(?:ul_)|(?:dul_))colou?r256\([\[\()]?\s*(0x)?([0-9a-fA-F]+)\s*[\)\]]?\)\Z', s)
         if match:
             try:
                 rgb = int(match.group(3), 16 if match.group(2) else 10)
